@@ -574,7 +574,7 @@ theorem slice_case (cfg : CheckCfg) (m : Meta) (x : Node) (f t : Option Node) (i
     -- the three possible exits all satisfy the invariants
     have colls_all : (if (!fok) = true then ((setKd (Node.slice m x' f' t) ifaceTy, ifaceTy, st2) : Node × OTy × CState)
         else if (!tok) = true then (setKd (Node.slice m x' f' t') ifaceTy, ifaceTy, st3)
-        else (setKd (Node.slice m x' f' t') tx, tx, st3)).2.2.colls = st.colls := by
+        else (setKd (Node.slice m x' f' t') (sliceResult cfg.dt tx), sliceResult cfg.dt tx, st3)).2.2.colls = st.colls := by
       by_cases h : fok = true
       · by_cases h' : tok = true
         · simp only [h, h', Bool.not_true, Bool.false_eq_true, if_false]; exact c3.trans (c2.trans c1)
